@@ -20,6 +20,8 @@ LEVEL_TEXT = ('Decides from the source: (R1) the set of builtins the sandbox adm
               'interpreted over a table of expression situations, rejects every escape route named by the property; '
               '(R4) rejected expressions stay inert and evaluation errors become FailedSemantics. Effects reachable '
               'through methods of allowed *values* other than str.format field syntax are not decided.')
+TECHNIQUE += '; precedence of the evaluation context (constant() interpreted with colliding names in builtins / semantics context / AST)'
+LEVEL_TEXT += ' Added clause: a name of the AST wins over a sandbox builtin of the same name, as documented.'
 LEVEL_NOTE = ('Trusted: CPython eval(src, {"__builtins__": {}}, ctx) resolves names only in ctx; the builtin namespace '
               'of /venv python 3.12 (incl. site additions) is the environment model; effect classes of builtins '
               '(DESIGN appendix B) are the oracle.')
